@@ -19,7 +19,16 @@ def gen_schedule(rnd: random.Random, dhw: bool, n_max: int = 6, setpoints=None) 
     days = []
     for dow in range(7):
         n = rnd.randint(1, n_max)
-        tods = sorted(rnd.sample(range(288), n))
+        tods = set(rnd.sample(range(288), n))
+        # the ends of the day (a record of all zeros is Monday 00:00 off for hot water) and its neighbours
+        r = rnd.random()
+        if r < 0.3:
+            tods.add(0)
+        elif r < 0.4:
+            tods.add(1)
+        if rnd.random() < 0.2:
+            tods.add(287)
+        tods = sorted(tods)[:n_max + 2]
         sps = []
         for t in tods:
             tod = f"{t * 5 // 60:02d}:{t * 5 % 60:02d}"
@@ -54,7 +63,7 @@ def run(chk: Check) -> None:
 
     rnd = random.Random(chk.seed)
     thorough = chk.tier == "thorough"
-    N = 3000 if thorough else 400
+    N = 12000 if thorough else 2000
     D = Diff(chk)
     chk.rule = (
         "validator-accepted weekly schedules (7 days, 1-6 ordered switchpoints on 5-minute times; zone setpoints k/100 in "
